@@ -332,12 +332,20 @@ def r4(ctx):
                     if isinstance(shp, Tup):
                         shapes[nm] = list(shp.elems)
         # normalise len(X) / X.shape[0]
-        ranges: Dict[str, Range] = {}
+        loop_ranges: Dict[int, Range] = {}
         for lp in Resolver.walk_own(fi.node):
             if isinstance(lp, ast.For) and isinstance(lp.target, ast.Name):
                 r = b.loop_range(lp)
                 if r is not None:
-                    ranges[Sym(lp.target.id).key] = r
+                    loop_ranges[id(lp)] = r
+
+        def ranges_at(node):
+            # the loops that enclose the subscript (two loops may use the same variable name one after the other)
+            out = {}
+            for lp in cfg.enclosing_loops(node):
+                if id(lp) in loop_ranges:
+                    out[Sym(lp.target.id).key] = loop_ranges[id(lp)]
+            return out
         subs = [s for s in Resolver.walk_own(fi.node) if isinstance(s, ast.Subscript) and isinstance(s.value, ast.Name)]
         for s in subs:
             name = s.value.id
@@ -347,6 +355,7 @@ def r4(ctx):
                 continue
             elts = s.slice.elts if isinstance(s.slice, ast.Tuple) else [s.slice]
             at = cfg.node_of(s)
+            ranges = ranges_at(at)
             for k, e in enumerate(elts):
                 if isinstance(e, ast.Slice):
                     continue
